@@ -133,6 +133,15 @@ class Tup(tuple):
     pass
 
 
+class FloatV:
+    """result of a true division x / y of two integers: a CPython float (53-bit significand).  Only int() of it is modelled."""
+    def __init__(self, num, den):
+        self.num, self.den = num, den
+
+
+_FRESH = itertools.count()
+
+
 class Opaque:
     def __init__(self, what=""):
         self.what = what
@@ -818,6 +827,13 @@ class Exec:
                 c = z3.BoolVal(a is b)
             elif hasattr(a, "is_none") and b is NONE:
                 c = a.is_none
+            elif isinstance(a, (z3.ArithRef, int)) and isinstance(b, (z3.ArithRef, int)) and not isinstance(a, bool) and not isinstance(b, bool):
+                # identity of two int objects: implies equality; guaranteed by CPython only for the cached small ints (-5..256);
+                # otherwise it depends on how each object was produced -> an unconstrained Boolean
+                x, y = self.toint(a, node), self.toint(b, node)
+                c = z3.Bool(f"int_identity!{next(_FRESH)}")
+                q.assume(z3.Implies(c, x == y))
+                q.assume(z3.Implies(z3.And(x == y, x >= -5, x <= 256), c))
             else:
                 self.unsupported(node, "is")
             return c if isinstance(op, ast.Is) else z3.Not(c)
@@ -915,6 +931,9 @@ class Exec:
             self.oblige(f"div-divisor-nonzero@{node.lineno}", q, y != 0, node)
             self.oblige(f"div-divisor-positive@{node.lineno}", q, y > 0, node)   # then z3 div == Python //
             return x / y
+        if isinstance(op, ast.Div):
+            self.oblige(f"div-divisor-nonzero@{node.lineno}", q, y != 0, node)
+            return FloatV(x, y)
         if isinstance(op, ast.LShift):
             self.oblige(f"shift-count-nonneg@{node.lineno}", q, y >= 0, node)
             if z3.is_int_value(x) and x.as_long() == 1:
@@ -952,6 +971,16 @@ class Exec:
                     if z3.is_int_value(key):
                         out.append((o[key.as_long()], q2)); continue
                     self.unsupported(e, "symbolic tuple index")
+                if isinstance(key, z3.ArithRef):
+                    key = z3.simplify(key)
+                if isinstance(o, Rng) and z3.is_int_value(key) and key.as_long() in (0, -1):
+                    # range(start, stop, step)[0] / [-1] for a positive step; IndexError on an empty range
+                    self.oblige(f"range-step-positive@{e.lineno}", q2, o.step > 0, e)
+                    qe = q2.fork(); qe.assume(o.stop <= o.start)
+                    out.append((Raised("IndexError"), qe))
+                    q2.assume(o.stop > o.start)
+                    last = o.start + ((o.stop - o.start - 1) / o.step) * o.step
+                    out.append((o.start if key.as_long() == 0 else last, q2)); continue
                 if isinstance(o, SymObj) and o.model is not None and hasattr(o.model, "getitem"):
                     out += o.model.getitem(self, o, key, q2, e); continue
                 if isinstance(o, Opaque):
@@ -1080,6 +1109,19 @@ class Exec:
             return [(Rng(a[0], a[1], z3.IntVal(1)), q)]
         self.oblige(f"range-step-nonzero@{e.lineno}", q, a[2] != 0, e)
         return [(Rng(a[0], a[1], a[2]), q)]
+
+    def b_int(self, args, kwargs, q, e):
+        v = args[0] if args else z3.IntVal(0)
+        if isinstance(v, FloatV):
+            # int(x / y): exact when both operands are exactly representable as floats and the quotient is an integer
+            # (IEEE division is correctly rounded); otherwise the nearest-float rounding is NOT modelled: any integer
+            r = z3.Int(f"int_of_float!{next(_FRESH)}")
+            lim = z3.IntVal(1 << 53)
+            q.assume(z3.Implies(z3.And(v.den > 0, v.num >= 0, v.num <= lim, v.den <= lim, v.num % v.den == 0), r == v.num / v.den))
+            return [(r, q)]
+        if isinstance(v, (z3.ArithRef, int)) and not kwargs and len(args) == 1:
+            return [(self.toint(v, e), q)]
+        self.unsupported(e, f"int({v!r})")
 
     def b_reversed(self, args, kwargs, q, e):
         v = args[0]
